@@ -13,6 +13,7 @@ import sys
 import tokenize
 import traceback
 
+from rich import console
 from rich import progress
 
 from bandit.core import constants as b_constants
@@ -280,7 +281,11 @@ class BanditManager:
             len(self.files_list) > PROGRESS_THRESHOLD
             and LOG.getEffectiveLevel() <= logging.INFO
         ):
-            files = progress.track(self.files_list)
+            # the progress display goes where the log goes: standard output
+            # may be carrying the report
+            files = progress.track(
+                self.files_list, console=console.Console(stderr=True)
+            )
         else:
             files = self.files_list
 
